@@ -70,7 +70,8 @@ theorem tunnel_endpoint_forwards_listener_ops :
     its exit sockets after the shutdown.  (Not required, because not a resource in the sense of the property: clearing
     the tunnel tables; the theorem below still says what those statements achieve when they are present.) -/
 def scriptOk (c : ClassInfo) : Bool :=
-  c.script.contains .removeSelf && c.script.contains .tmShutdown && c.script.contains .unloadBootstrappers
+  !c.script.contains .returnIfDown       -- `_shutdown` is not "already unloaded": shutdown_task_manager() is public API
+  && c.script.contains .removeSelf && c.script.contains .tmShutdown && c.script.contains .unloadBootstrappers
   && (!c.hasCache || c.script.contains .cacheShutdown)
   && (!c.hasDb || c.script.contains .closeDb)
   && (!c.installsProxy || (c.script.contains .removeProxy && c.script.contains .clearFwd
@@ -108,7 +109,7 @@ theorem unload_releases_everything (c : ClassInfo) (hc : scriptOk c = true) (sl 
     (UOp.clearTable .remCircuit ∈ c.script → s'.circuits = 0) ∧ (UOp.clearTable .remRelay ∈ c.script → s'.relays = 0) := by
   intro s'
   simp only [scriptOk, Bool.and_eq_true, Bool.or_eq_true, Bool.not_eq_true', List.contains_iff_mem] at hc
-  obtain ⟨⟨⟨⟨⟨⟨hself, htm⟩, hboot⟩, hcache⟩, hdb⟩, hproxy⟩, hkids⟩ := hc
+  obtain ⟨⟨⟨⟨⟨⟨⟨hnoret, hself⟩, htm⟩, hboot⟩, hcache⟩, hdb⟩, hproxy⟩, hkids⟩ := hc
   have P := fun (t : UState) (a : UOp) => step_proj sl acq t a
   have hframe : UFrame s.self s.proxy s := by
     refine ⟨rfl, rfl, hstack, ?_⟩
@@ -447,6 +448,25 @@ example :
     let s : UState := { w := w, self := 1, proxy := 2, viaOuter := false, exits := 1, openExit := 1, children := 2 }
     c.ownsChildren = true ∧ scriptOk c = true ∧
     (s.run (fun k now => Gen.removalSleeps k now Gen.defaultRemoveDelay) (fun _ => 1) c.script).children = 0 := by decide
+
+/-- **unload_with_control_flow** — the same guarantee for the script run WITH its control flow (`UState.runG`), from every state
+    — in particular from states in which the task manager was already shut down through the public API before `unload` was
+    called: an accepted script contains no `if self._shutdown: return`, so nothing is skipped. -/
+theorem unload_with_control_flow (c : ClassInfo) (hc : scriptOk c = true) (sl : RemKind → Bool → Bool) (acq : Nat → Nat)
+    (s : UState) : s.runG sl acq c.script = s.run sl acq c.script := by
+  apply runG_eq_run
+  simp only [scriptOk, Bool.and_eq_true, Bool.not_eq_true', List.contains_eq_mem, decide_eq_false_iff_not] at hc
+  exact hc.1.1.1.1.1.1.1
+
+/-- the early return is NOT an idempotence guard: after `shutdown_task_manager()` (flag set, listener still registered) an
+    `Overlay.unload` that starts with `if self._shutdown: return` leaves the overlay reachable — and `scriptOk` rejects it -/
+example :
+    let bad : List UOp := [.returnIfDown, .unloadBootstrappers, .removeSelf, .tmShutdown]
+    let c : ClassInfo := ⟨"early-return", false, false, false, false, bad⟩
+    let w : World := ({ } : World).run (loadOps c false 1 2 7)
+    let s : UState := { w := w, self := 1, proxy := 2, viaOuter := false, tmDown := true }
+    scriptOk c = false ∧ (1 ∈ (s.runG (fun _ _ => false) (fun _ => 0) bad).w.touched 7) ∧
+    (1 ∉ (s.runG (fun _ _ => false) (fun _ => 0) [.unloadBootstrappers, .removeSelf, .tmShutdown]).w.touched 7) := by decide
 
 /-- ORDER matters in the model as it does in the code: the same statements with the exit-socket sweep BEFORE the
     task-manager shutdown are rejected by `scriptOk`, and rightly so — a socket opened while that sweep is suspended stays -/
